@@ -63,6 +63,14 @@ func (C19) Gen(r *simrt.RNG, tier string) core.Case {
 		}
 		c.Kinds = append(c.Kinds, k)
 	}
+	if km == 2 && r.Chance(1, 3) {
+		// hash-code vertices that all print alike (names are for display only)
+		for i := range c.Kinds {
+			if r.Bool() {
+				c.Kinds[i] = 4
+			}
+		}
+	}
 	n := 5 + r.Intn(56)
 	negW := r.Chance(1, 4)
 	// op mix weights vary per run (swarm)
@@ -267,7 +275,7 @@ func (C19) Run(c core.Case, ctx *core.Ctx) []core.Violation {
 							}
 						}
 					}
-					if cc.Kinds[op.A] != 2 {
+					if cc.Kinds[op.A] != 2 && cc.Kinds[op.A] != 4 {
 						// ints and strings have one Go value per vertex: overwrite keeps it
 						if _, ok := h.st.present[op.A]; !ok {
 							h.st.present[op.A] = 0
@@ -455,7 +463,17 @@ func compareHandle(h *handle, cc C19Case, sim *simrt.Sim, deep bool) (msg string
 				}
 			}
 		}
-		// exact weights through the textual rendering
+		// exact weights through the textual rendering (which lists vertices by name:
+		// not meaningful once two present vertices print alike)
+		sameNamed := 0
+		for v := range h.st.present { // order-insensitive: count
+			if cc.Kinds[v] == 4 {
+				sameNamed++
+			}
+		}
+		if sameNamed >= 2 {
+			return
+		}
 		txt := h.g.String()
 		for e, w := range h.st.adj { // order-insensitive: every edge checked
 			a, b := e[0], e[1]
